@@ -2,6 +2,7 @@
 import re
 
 from ..core import (
+    switch_sites,
     Site,
     callee_of,
     callee_is,
@@ -277,8 +278,9 @@ def rule_selector_retirement(ctx):
     # buffered replay: the id registered for re-encoding derives from the attacked label
     n2 = 0
     for b in prog.lib_bodies():
-        if b.kind != "closure":
-            continue
+        fnb = prog.enclosing_fn(b)
+        if fnb.impl and fnb.impl.get("self_adt") == owner:
+            continue  # the encoder itself: checked above
         for s in b.calls():
             c = callee_of(s)
             if c and strip_generics(callee_name(c)) in (strip_generics(owner + "::new_attack"), strip_generics(owner + "::remove_attack")):
@@ -286,18 +288,15 @@ def rule_selector_retirement(ctx):
                 roots_to = _label_roots(b, s.node["args"][3])
                 ok = False
                 bad = False
+                heads = set(b.in_loop(s.bb))
                 for x in b.calls():
-                    if x.bb != s.bb and b.reaches(s.bb, x.bb) and not b.reaches(x.bb, s.bb):
-                        cx = callee_of(x)
-                        if cx and callee_matches(cx, r"ops::function::FnMut::call_mut$|ops::function::Fn::call$"):
-                            # argument tuple (id,)
-                            for o in origins(b, x.node["args"][1], transparent=()):
-                                if o.kind == "agg" and o.data["kind"] == "tuple":
-                                    got = id_label_roots(prog, b, o.site.node["rv"]["ops"][0])
-                                    if got and got <= roots_to:
-                                        ok = True
-                                    elif got:
-                                        bad = True
+                    if x.bb != s.bb and b.reaches(s.bb, x.bb, avoid=heads) and not b.reaches(x.bb, s.bb, avoid=heads):
+                        for op in _registration_operands(prog, b, x):
+                            got = id_label_roots(prog, b, op)
+                            if got and got <= roots_to:
+                                ok = True
+                            elif got:
+                                bad = True
                 r.check(ok and not bad, b.id + "|" + strip_generics(callee_name(c)).rsplit("::", 1)[-1], "replay-wrong-argument", "replay registers the attacked argument for re-encoding", "the replay registers an argument other than the attacked one for re-encoding", s.loc())
     r.floor(n2, 2, "attack replays in the buffered selector-based encoder")
 
@@ -352,35 +351,50 @@ def rule_slot_exhaustion(ctx):
     # encode functions: clear the flag and rebuild tables
     tables = [f["name"] for v in owner["variants"] for f in v["fields"] if f["ty"].startswith("alloc::vec::Vec<")]
     scalars = [f["name"] for v in owner["variants"] for f in v["fields"] if f["ty"] == "usize"]
-    r.floor(len(sets_false), 2, "encode functions clearing the flag")
-    for u in sets_false:
-        b = u.site.body
-        fnb = u.fn
-        # early return when the flag is false
-        early = False
-        for s in b.exits():
-            pass
-        # whole-field assignments
+    r.floor(len(sets_false), 1, "sites clearing the re-encode flag")
+    # entry functions of a full re-encoding: owner methods that test the flag and (themselves or through helper methods of
+    # the owner) clear it; the *region* of an entry = the entry and the owner methods reachable from it
+    clear_bodies = {u.fn.id for u in sets_false}
+    entries = []
+    for fnb in prog.lib_bodies():
+        if fnb.kind == "closure" or not fnb.impl or fnb.impl.get("self_adt") != opath:
+            continue
+        region = [x for x in prog.reachable_from([fnb], virtual_dispatch=False).values() if prog.enclosing_fn(x).impl and prog.enclosing_fn(x).impl.get("self_adt") == opath]
+        if not any(prog.enclosing_fn(x).id in clear_bodies for x in region):
+            continue
+        tests_flag = [sw for sw in switch_sites(fnb) if flag in self_fields_read(fnb, sw.node["discr"], through_calls=False)]
+        if not tests_flag:
+            continue
+        entries.append((fnb, region))
+    r.floor(len(entries), 2, "encode functions clearing the flag")
+    for fnb, region in entries:
+        # whole-field assignments somewhere in the region
         missing = []
         for f in tables + scalars:
-            st = [x for x in field_uses(prog, opath, f, bodies=[fnb]) if x.mut and x.op.startswith("store") and not x.op.startswith("store-elem") and x.site.body is fnb]
-            if not st or not all(fnb.dominates(u.site, x.site) or x.site.bb == u.site.bb for x in st[:1]):
+            st = [x for x in field_uses(prog, opath, f, bodies=region) if x.mut and x.op.startswith("store") and not x.op.startswith("store-elem")]
+            if not st:
                 missing.append(f)
         r.check(not missing, fnb.id, "tables-not-rebuilt:%s" % missing, "encode function reassigns every table (%s)" % (tables + scalars), "the full re-encoding does not rebuild %s" % missing, fnb.loc())
         # solver replaced by a fresh one:  *self.solver.borrow_mut() = factory()
         fresh = False
-        for s in fnb.sites():
-            n = s.node
-            if s.si is not None and n["k"] == "assign" and n["dst"]["p"] and n["dst"]["p"][0] == "*":
-                if any(o.kind == "call" and callee_matches(o.data, r"cell::RefCell::borrow_mut$") for o in origins(fnb, {"l": n["dst"]["l"], "p": []}, transparent=("core::ops::deref::DerefMut::deref_mut", "core::ops::deref::Deref::deref"))):
-                    if any(o.kind == "call" and (callee_matches(o.data, r"ops::function::Fn::call$") or o.data.get("decl") == "<indirect>") for o in origins(fnb, n["rv"]["ops"][0], transparent=())):
-                        fresh = True
+        for x in region:
+            for s in x.sites():
+                n = s.node
+                if s.si is not None and n["k"] == "assign" and n["dst"]["p"] and n["dst"]["p"][0] == "*":
+                    if any(o.kind == "call" and callee_matches(o.data, r"cell::RefCell::borrow_mut$") for o in origins(x, {"l": n["dst"]["l"], "p": []}, transparent=("core::ops::deref::DerefMut::deref_mut", "core::ops::deref::Deref::deref"))):
+                        if any(o.kind == "call" and (callee_matches(o.data, r"ops::function::Fn::call$") or o.data.get("decl") == "<indirect>") for o in origins(x, n["rv"]["ops"][0], transparent=())):
+                            fresh = True
         r.check(fresh, fnb.id, "solver-not-replaced", "the full re-encoding starts from a fresh SAT solver", "the full re-encoding keeps the old SAT solver (stale clauses survive)", fnb.loc())
-        # the guard: function returns early unless the flag is set
+        # the guard: the clearing (or the call leading to it) happens only when the flag is set
         guarded = False
-        for c in conditions(fnb, u.site.bb):
-            if flag in self_fields_read(fnb, c.place, through_calls=False):
-                guarded = True
+        sites = [u.site for u in sets_false if u.fn is fnb]
+        for s2, t in prog.callees(fnb, include_closures=False, virtual_dispatch=False):
+            if any(prog.enclosing_fn(y).id in clear_bodies for y in prog.reachable_from([t], virtual_dispatch=False).values()):
+                sites.append(s2)
+        for st in sites:
+            for c in conditions(fnb, st.bb):
+                if flag in self_fields_read(fnb, c.place, through_calls=False):
+                    guarded = True
         r.check(guarded, fnb.id, "unguarded-encode", "re-encoding happens only when the flag is set", loc=fnb.loc())
     # assumptions recomputed in each query
     n = 0
@@ -441,6 +455,28 @@ def _derives_from_attacked_of(body, op, prog):
     return has_iter and has_attacked and not has_attacker_only
 
 
+def _registration_operands(prog, b, x):
+    """operands a call may register for later re-encoding: the elements of the argument tuple of a closure call, or the
+    integer arguments of a call of a local function / method that is not an operation of the framework or of the encoder"""
+    cx = callee_of(x)
+    if cx is None:
+        return []
+    if callee_matches(cx, r"ops::function::(FnMut::call_mut|Fn::call|FnOnce::call_once)$") or "{closure#" in (cx.get("decl") or ""):
+        out = []
+        if len(x.node["args"]) >= 2:
+            for o in origins(b, x.node["args"][1], transparent=()):
+                if o.kind == "agg" and o.data["kind"] == "tuple":
+                    out += list(o.site.node["rv"]["ops"])
+        return out
+    nm = strip_generics(callee_name(cx) or "")
+    if not nm.startswith("dynamics::") or re.search(r"DynamicConstraintsEncoder::(new_argument|remove_argument|new_attack|remove_attack|update_attacks_to_constraints)$", nm.replace("BufferedDynamicConstraintsEncoder", "Buffered")):
+        return []
+    tgt = prog.body_for_callee(cx, b)
+    if tgt is None:
+        return []
+    return [a for i, a in enumerate(x.node["args"]) if tgt.local_ty(i + 1) == "usize"]
+
+
 def rule_reencode_on_removal(ctx):
     prog = ctx.prog
     r = ctx.rule(
@@ -494,16 +530,10 @@ def rule_reencode_on_removal(ctx):
             for x in b.calls():
                 if x.bb == s.bb or not b.reaches(x.bb, s.bb):
                     continue
-                cx = callee_of(x)
-                is_closure_call = cx is not None and (callee_matches(cx, r"ops::function::(FnMut::call_mut|Fn::call)$") or "{closure#" in (cx.get("decl") or ""))
-                if not is_closure_call or len(x.node["args"]) < 2:
-                    continue
-                for o in origins(b, x.node["args"][1], transparent=()):
-                    if o.kind == "agg" and o.data["kind"] == "tuple":
-                        # the id comes from the iterator driving the loop
-                        seen, calls, _ = data_deps(b, o.site.node["rv"]["ops"][0])
-                        if _derives_from_attacked_of(b, o.site.node["rv"]["ops"][0], prog):
-                            reg = True
+                for op in _registration_operands(prog, b, x):
+                    # the id comes from the iterator driving the loop
+                    if _derives_from_attacked_of(b, op, prog):
+                        reg = True
             r.check(reg, b.id + "|remove_argument", "attacked-not-registered", "the replay registers every argument attacked by the removed one before removing it", "the replay of a removal does not register the arguments attacked by the removed argument for re-encoding (the encoder's own re-encoding is switched off during replay)", s.loc())
     r.floor(n, 1, "callers of the selector-based encoder's remove_argument")
 
@@ -523,12 +553,33 @@ def rule_monotone_allocation(ctx):
         if not any(t.startswith("alloc::vec::Vec<core::option::Option<usize>>") for _, t in flds):
             continue  # solvers, not encoders
         # full re-encoding functions: those that replace the solver object
-        def is_full_encode(fn):
+        def _replaces_solver(fn):
             for s in fn.sites():
                 nd = s.node
                 if s.si is not None and nd["k"] == "assign" and nd["dst"]["p"] and nd["dst"]["p"][0] == "*" and "dyn sat::sat_solver::SatSolver" in fn.local_ty(nd["dst"]["l"]):
                     return True
             return False
+
+        _full = {}
+
+        def is_full_encode(fn, depth=0):
+            """fn belongs to a full re-encoding: it replaces the solver object, or reaches (within the type) a method that does,
+            or is a helper called only from such functions"""
+            if fn.id in _full:
+                return _full[fn.id]
+            _full[fn.id] = False
+            res = _replaces_solver(fn)
+            if not res:
+                for y in prog.reachable_from([fn], virtual_dispatch=False).values():
+                    if y is not fn and y.kind != "closure" and y.impl and y.impl.get("self_adt") == path and _replaces_solver(y):
+                        res = True
+            if not res and depth < 4:
+                callers = {prog.enclosing_fn(cs.body).id: prog.enclosing_fn(cs.body) for cs in prog.callers_of(fn)}
+                callers.pop(fn.id, None)
+                if callers and all(is_full_encode(c, depth + 1) for c in callers.values()):
+                    res = True
+            _full[fn.id] = res
+            return res
         for name, ty in flds:
             if ty == "usize":
                 for u in field_uses(prog, path, name):
